@@ -22,6 +22,13 @@ CHECKS = {
  'C13': dict(cat='proof', tech='Lean 4 proof (all interleavings, inductive Interleave relation) + exhaustive enumeration of task interleavings on the real code + sampled OS-thread schedules',
    text='Lean: for any interleaving of per-thread/per-task event lists the delivered LINE events are the same multiset (opened_interleave), hence quiescent reports equal the sum of what each task executed (interleave_exact), interleaving_independent; a suspension empties the slot. K13 enumerates every interleaving of 2-3 step-wise driven generators/coroutines/async generators of the same registered code (window and per-step decorator windows) on the real profiler, compares with the model and with the sum of solo runs; free-running OS threads (2-8, silent ones included, tiny switch intervals) are compared with the sum of deterministic per-thread counts, counts back to zero, no crash.',
    note=TB + 'OS thread schedules can only be sampled; a data race inside the C++ maps is outside the model (the callback never releases the GIL: recorded assumption).', ref='§6 C13'),
+
+ 'C15': dict(cat='proof', tech='Lean 4 proof over all argument lists and option tables + translator bridge (emitted pre_parse = model) + correspondence on the real entry point',
+   text='Lean: module_mode, script_plain, script_shielded, options_only_from_prefix hold for every option table, every decodable option prefix and every list of program arguments (decode_extend: option decoding stops at the first positional and never looks further). The translator re-emits pre_parse_single_arg_directive from kernprof.py on every run and the bridge theorem gen_eq_model proves the emitted code equal to the model for all argument lists; the option table is regenerated from the add_argument calls. K15 runs the real kernprof.main in-process on thousands of token lists (module / shielded script / plain script shapes after 20 option prefixes) and compares argv, output file name and type, and viewing with the model and with the property directly.',
+   note=TB + 'argparse is modelled only on kernprof\'s option grammar (exact names, --long=value, separate values); abbreviations and clustered short flags are outside the model. -i prefixes are exercised elsewhere (timer threads).', ref='§6 C15'),
+ 'C17': dict(cat='proof', tech='Lean 4 proof over all names/levels/targets + translator bridge + exhaustive small-scope correspondence against importlib',
+   text='Lean: resolve_eq_python — for every dotted module name (ending in a module, __init__ or __main__ component), every level valid at that position and every target, the implementation\'s split/slice/append equals importlib._bootstrap._resolve_name applied to the file\'s __package__; resolve_shape. The translator re-emits get_module_from_importfrom from run_module.py each run; bridge rel_gen_eq_model. K17 checks every (depth<=5/7, file kind, level, target) against the real function, importlib.util.resolve_name and the model, and rewrites real files (module, __init__, __main__ at every depth) with AstTreeModuleProfiler, comparing every ImportFrom (module, level, names, aliases) with Python\'s resolution.',
+   note=TB + 'Theorem is on component lists; the string glue (split/join) and the modpath_to_modname call that names the file are exercised by K17.', ref='§6 C17'),
 }
 NA = {}
 
